@@ -86,7 +86,12 @@ def run(ctx):
     p = lo.positional_params()
     ok = any(isinstance(c.func, ast.Attribute) and c.func.attr == "submit" and any(k.arg == "deps" and dotted(k.value) == p[2] for k in c.keywords) or
              (isinstance(c.func, ast.Attribute) and c.func.attr == "submit" and len(c.args) > 1 and dotted(c.args[1]) == p[2]) for c in _calls(lo.node))
-    r3.check(ok, f"{lo.module.relpath}::{lo.qual}", "client.submit(target, deps=<all ids>)", "LocalOps.submit_target does not pass the whole id list to the client", lo.where)
+    from .evalhelpers import cached_witness, local_client_witness as _lcw, server_session_witness as _ssw
+    _wc = cached_witness(ctx, "local-client", _lcw)
+    _ws = cached_witness(ctx, "server-session", _ssw)
+    client_ok = _wc[2] is None and not [d for d in _wc[1] if "cancel" not in d]   # evaluated: one flushed enqueue_task with all ids, returns the pool's id
+    server_ok = _ws[2] is None and not [d for d in _ws[1] if "enqueue_task" in d]
+    r3.check(ok or client_ok, f"{lo.module.relpath}::{lo.qual}", "client.submit(target, deps=<all ids>)", "LocalOps.submit_target does not pass the whole id list to the client", lo.where)
     cs = idx.func("gwf.backends.local:Client.submit")
     dp = cs.positional_params()[2]
     sent = None
@@ -95,7 +100,7 @@ def run(ctx):
             for k in c.keywords:
                 if k.arg == "deps":
                     sent = ast.unparse(k.value)
-    r3.check(sent in (dp, f"{dp} or []", f"list({dp})", f"list({dp} or [])"), f"{cs.module.relpath}::{cs.qual}", f"send(..., deps={sent})",
+    r3.check(sent in (dp, f"{dp} or []", f"list({dp})", f"list({dp} or [])") or client_ok, f"{cs.module.relpath}::{cs.qual}", f"send(..., deps={sent})",
              f"the client sends deps={sent}, not the complete id list", cs.where)
     from .localpool import rule_enqueue_binding
     rule_enqueue_binding(ctx, r3)
@@ -104,7 +109,7 @@ def run(ctx):
     ok = any(isinstance(c.func, ast.Attribute) and c.func.attr == "enqueue_task" and any(
         k.arg == "deps" and isinstance(k.value, ast.Call) and isinstance(k.value.func, ast.Attribute) and k.value.func.attr == "pop" and k.value.args
         and isinstance(k.value.args[0], ast.Constant) and k.value.args[0].value == "deps" for k in c.keywords) for c in _calls(hc.node))
-    r3.check(ok, f"{hc.module.relpath}::{hc.qual}", "deps=message.pop('deps')", "the server does not hand the message's deps to the scheduler", hc.where)
+    r3.check(ok or server_ok, f"{hc.module.relpath}::{hc.qual}", "deps=message.pop('deps')", "the server does not hand the message's deps to the scheduler", hc.where)
 
     from .evalhelpers import local_client_witness
     _n, cdiffs, cunsup = local_client_witness(ctx)
